@@ -28,12 +28,16 @@ impl FnInfo {
         let mut v = vec![];
         for a in &self.sig.inputs {
             match a {
-                syn::FnArg::Receiver(_) => v.push(("self".to_string(), RTy::Unknown)),
+                syn::FnArg::Receiver(_) => v.push(("self".to_string(), RTy::W(self.container.clone()))),
                 syn::FnArg::Typed(pt) => {
-                    let name = match &*pt.pat {
-                        syn::Pat::Ident(i) => i.ident.to_string(),
-                        _ => "_".into(),
-                    };
+                    fn pname(p: &syn::Pat) -> String {
+                        match p {
+                            syn::Pat::Ident(i) => i.ident.to_string(),
+                            syn::Pat::Reference(r) => pname(&r.pat),
+                            _ => "_".into(),
+                        }
+                    }
+                    let name = pname(&pt.pat);
                     v.push((name, rty_of(&pt.ty, &self.generics)));
                 }
             }
@@ -70,9 +74,14 @@ fn generics_of(sig: &syn::Signature) -> Vec<(String, String)> {
 
 struct Calls {
     calls: Vec<(Option<String>, String)>,
+    methods: Vec<String>,
     world: bool,
 }
 impl<'ast> Visit<'ast> for Calls {
+    fn visit_expr_method_call(&mut self, m: &'ast syn::ExprMethodCall) {
+        self.methods.push(m.method.to_string());
+        syn::visit::visit_expr_method_call(self, m);
+    }
     fn visit_expr_call(&mut self, c: &'ast syn::ExprCall) {
         if let syn::Expr::Path(p) = &*c.func {
             let s = quote::quote!(#p).to_string().replace(' ', "");
@@ -101,6 +110,9 @@ pub fn split_call_path(p: &syn::ExprPath) -> Option<(Option<String>, String)> {
     if segs.len() == 2 && segs[0] == "Self" {
         return Some((None, segs[1].clone()));
     }
+    if segs.len() == 2 && crate::wrappers::wrapper(&segs[0]).is_some() {
+        return Some((Some(segs[0].clone()), segs[1].clone()));
+    }
     if segs.len() == 1 {
         return Some((Some("<free>".into()), segs[0].clone()));
     }
@@ -122,7 +134,8 @@ impl Table {
                 if let Some(i) = self.by_key.get(&format!("{}::{}", cur, f)) {
                     return Some(*i);
                 }
-                let c: Vec<usize> = self.fns.iter().enumerate().filter(|(_, x)| x.name == f && x.container != "free").map(|(i, _)| i).collect();
+                // a supertrait's method: unique among the translated traits
+                let c: Vec<usize> = self.fns.iter().enumerate().filter(|(_, x)| x.name == f && x.container.starts_with("Bls")).map(|(i, _)| i).collect();
                 if c.len() == 1 {
                     Some(c[0])
                 } else {
@@ -145,6 +158,24 @@ const FILES: &[&str] = &[
     "traits/sign_crypt.rs",
     "traits/time_crypt.rs",
     "traits/elgamal.rs",
+    "secret_key.rs",
+    "public_key.rs",
+    "signature.rs",
+    "aggregate_signature.rs",
+    "multi_signature.rs",
+    "multi_public_key.rs",
+    "proof_of_possession.rs",
+    "secret_key_share.rs",
+    "public_key_share.rs",
+    "signature_share.rs",
+    "proof_commitment.rs",
+    "proof_of_knowledge.rs",
+    "sign_crypt_ciphertext.rs",
+    "sign_decryption_share.rs",
+    "time_crypt_ciphertext.rs",
+    "elgamal_ciphertext.rs",
+    "elgamal_proof.rs",
+    "elgamal_decryption_share.rs",
 ];
 
 pub fn emit(parsed: &[(String, syn::File)], out: &std::path::Path) {
@@ -161,6 +192,39 @@ pub fn emit(parsed: &[(String, syn::File)], out: &std::path::Path) {
             }
         }
         for it in &ast.items {
+            if let syn::Item::Impl(im) = it {
+                // inherent methods of the wrapper types, and TryFrom<&[Signature<C>]> (the accumulators)
+                let self_name = match &*im.self_ty {
+                    syn::Type::Path(p) => p.path.segments.last().unwrap().ident.to_string(),
+                    _ => continue,
+                };
+                if crate::wrappers::wrapper(&self_name).is_none() {
+                    continue;
+                }
+                let tr_s = im.trait_.as_ref().map(|(_, p, _)| quote::quote!(#p).to_string().replace(' ', ""));
+                let take = match &tr_s {
+                    None => true,
+                    Some(t) => t == "TryFrom<&[Signature<C>]>",
+                };
+                if !take {
+                    continue;
+                }
+                for ii in &im.items {
+                    if let syn::ImplItem::Fn(m) = ii {
+                        let mut g = generics_of(&m.sig);
+                        g.push(("Self".into(), self_name.clone()));
+                        fns.push(FnInfo {
+                            container: self_name.clone(),
+                            name: m.sig.ident.to_string(),
+                            file: path.clone(),
+                            sig: m.sig.clone(),
+                            block: m.block.clone(),
+                            generics: g,
+                            consts: file_consts.clone(),
+                        });
+                    }
+                }
+            }
             if let syn::Item::Trait(t) = it {
                 for ti in &t.items {
                     if let syn::TraitItem::Fn(f) = ti {
@@ -196,12 +260,20 @@ pub fn emit(parsed: &[(String, syn::File)], out: &std::path::Path) {
     let mut callees: Vec<Vec<usize>> = vec![];
     let mut direct_world = vec![];
     for f in &table.fns {
-        let mut c = Calls { calls: vec![], world: false };
+        let mut c = Calls { calls: vec![], methods: vec![], world: false };
         c.visit_block(&f.block);
         let mut v = vec![];
         for (t, n) in &c.calls {
             if let Some(i) = table.resolve(&f.container, t, n) {
                 v.push(i);
+            }
+        }
+        // method calls on wrapper values: every inherent method of that name (ordering and entropy use only)
+        for mname in &c.methods {
+            for (i, g) in table.fns.iter().enumerate() {
+                if g.name == *mname && !g.container.starts_with("Bls") && !v.contains(&i) {
+                    v.push(i);
+                }
             }
         }
         callees.push(v);
@@ -240,13 +312,19 @@ pub fn emit(parsed: &[(String, syn::File)], out: &std::path::Path) {
         }
         stack.pop();
         let mut r = tr::translate_fn(table, &table.fns[i]);
-        if r.is_ok() {
+        if let Ok(text) = &r {
+            let mut bad = None;
             for j in &callees[i] {
                 if *j != i {
                     if let Some(Err(_)) = &results[*j] {
-                        r = Err(format!("calls {} which is not translated", table.fns[*j].key()));
+                        if text.contains(&format!("{} E", table.fns[*j].coq_name())) {
+                            bad = Some(table.fns[*j].key());
+                        }
                     }
                 }
+            }
+            if let Some(b) = bad {
+                r = Err(format!("calls {} which is not translated", b));
             }
         }
         results[i] = Some(r);
@@ -259,7 +337,7 @@ pub fn emit(parsed: &[(String, syn::File)], out: &std::path::Path) {
 
     let mut s = String::new();
     s.push_str("(* GENERATED by rs2v from the function bodies of /repo/src on every run. Do not edit.\n   One definition per translated function; vocabulary: coq/Refine/Prelude.v. *)\n");
-    s.push_str("From BV Require Import Alg.Field Alg.Dlog Sem.Base Model.Oracles Model.Helpers Model.Varint Model.Core\n     Model.Protocols Gen.Consts Refine.Prelude.\n\n");
+    s.push_str("From BV Require Import Alg.Field Alg.Dlog Sem.Base Model.Oracles Model.Helpers Model.Varint Model.Core\n     Model.Protocols Model.Api Gen.Consts Refine.Prelude.\n\n");
     let mut ok = 0;
     let mut failed = vec![];
     for i in order {
